@@ -296,14 +296,13 @@ def inst_dfa2regexp(rng):
     return own, submit, muts, [(n, (lambda x=x: submit_raw(x))) for n, x in raw]
 
 
-def inst_lang_words(rng, kind):
+def _kind_obj(rng, kind):
+    """a random object of the given kind, its printer, the checker for a word list, its projection and wrong variants"""
     import gambatools.dfa_algorithms as da
     import gambatools.nfa_algorithms as na
     import gambatools.cfg_algorithms as ca
     from gambatools.regexp import print_regexp_simple
-    from gambatools.language_generator import generate_language
     import gambatools.notebook as nb
-    length = rng.choice([2, 3])
     if kind == "dfa":
         X = small_dfa(rng, None, rng.choice(["a", "ab"]))
         pr, chk, absfn, muts = da.print_dfa, nb.check_dfa_language_from_words, ab.dfa, dfa_mutants(X, rng, 3)
@@ -367,6 +366,13 @@ def inst_lang_words(rng, kind):
                         set().union(*[r.terminals() for r in H.R]) == set(H.Sigma)):
                     continue
             muts.append(("rules", H))
+    return X, pr, chk, absfn, muts
+
+
+def inst_lang_words(rng, kind):
+    from gambatools.language_generator import generate_language
+    length = rng.choice([2, 3])
+    X, pr, chk, absfn, muts = _kind_obj(rng, kind)
     ws = generate_language(X, length)
     max_states = rng.choice([0, 0, 1, 2, 5]) if kind in ("dfa", "nfa", "pda", "tm") else 0
     wl = words_str(ws)
@@ -446,6 +452,67 @@ def inst_accepts_rejects(rng):
         return {"family": "accepts_rejects", "kind": "dfa", "ans": ab.dfa(A), "acc": ab.words(A_), "rej": ab.words(R_),
                 "length": 3, "verdict": v, "cex": None, "exc": exc, "out": ab.enc(out), "illformed": False}
     return D, submit, dfa_mutants(D, rng, 4)
+
+
+_EXT = {"dfa": ".dfa", "nfa": ".nfa", "pda": ".pda", "tm": ".tm", "cfg": ".cfg", "re": ".regexp"}
+
+
+def inst_lang_file_x(rng):
+    """language from a reference FILE of any kind (.nfa .regexp .cfg .pda .tm .dfa, chosen through the extension by
+    language_parser) against answers of any kind, each through its own check_<kind>_language_from_file"""
+    import gambatools.notebook as nb
+    chks = {"dfa": nb.check_dfa_language_from_file, "nfa": nb.check_nfa_language_from_file,
+            "pda": nb.check_pda_language_from_file, "tm": nb.check_tm_language_from_file,
+            "cfg": nb.check_cfg_language_from_file, "re": nb.check_regexp_language_from_file}
+    length = rng.choice([2, 3])
+    refkind = rng.choice(["nfa", "re", "cfg", "pda", "tm", "nfa", "re", "cfg"])
+    X, pr, _, absfn, muts = _kind_obj(rng, refkind)
+    path = write("refx_%d%s" % (rng.randrange(10 ** 9), _EXT[refkind]), pr(X))
+    ref = absfn(X)
+    others = []
+    for k in rng.sample([k for k in ("dfa", "nfa", "re", "cfg") if k != refkind], 2):
+        Y, prY, _, absY, _ = _kind_obj(rng, k)
+        others.append(("other/" + k, (k, Y, prY, absY)))
+
+    def submit(A):
+        k, Y, prY, absY = A if isinstance(A, tuple) else (refkind, A, pr, absfn)
+        v, cex, exc, out = run_checker(chks[k], prY(Y), path, length)
+        return {"family": "lang_file", "kind": k, "ans": absY(Y), "refkind": refkind, "ref": ref, "length": length,
+                "verdict": v, "cex": cex, "exc": exc, "out": ab.enc(out), "illformed": False}
+    return X, submit, list(muts) + others
+
+
+def inst_accepts_rejects_x(rng, kind):
+    """accept / reject lists for a grammar text (check_cfg_accepts_rejects) and for an object of any kind handed to
+    check_automaton_accepts_rejects directly"""
+    import gambatools.notebook as nb
+    from gambatools.language_generator import generate_language
+    X, pr, _, absfn, muts = _kind_obj(rng, kind)
+    S = sorted(ab_alphabet(X, kind))
+    ws = [w for w in U.words_upto("".join(S) if S else "", 3)]
+    lang = generate_language(X, 3)
+    acc = [w for w in ws if w in lang]
+    rej = [w for w in ws if w not in lang]
+    A_ = rng.sample(acc, min(len(acc), 3))
+    R_ = rng.sample(rej, min(len(rej), 3))
+
+    def submit(A):
+        if kind == "cfg":
+            v, cex, exc, out = run_checker(nb.check_cfg_accepts_rejects, pr(A), words_str(A_) if A_ else "",
+                                           words_str(R_) if R_ else "")
+        else:
+            v, cex, exc, out = run_checker(nb.check_automaton_accepts_rejects, A, words_str(A_) if A_ else "",
+                                           words_str(R_) if R_ else "")
+        return {"family": "accepts_rejects", "kind": kind, "ans": absfn(A), "acc": ab.words(A_), "rej": ab.words(R_),
+                "length": 3, "verdict": v, "cex": None, "exc": exc, "out": ab.enc(out), "illformed": False}
+    return X, submit, muts
+
+
+def ab_alphabet(X, kind):
+    if kind == "re":
+        from gambatools.regexp_algorithms import regexp_symbols
+        return {str(a) for a in regexp_symbols(X)}
+    return {str(a) for a in X.Sigma}
 
 
 LAYERED = [   # non-degenerate, nullable variables found in different rounds of the fix-point
@@ -618,8 +685,9 @@ def inst_exhaustive(rng, fam, seed):
 
 FAMILIES = ["union", "intersection", "symmetric_difference", "complement", "reverse", "minimal", "hopcroft", "nfa2dfa",
             "dfa2regexp", "lang_words/dfa", "lang_words/nfa", "lang_words/re", "lang_words/cfg", "lang_words/pda",
-            "lang_words/tm", "lang_file",
-            "accepts_rejects", "chomsky/1", "chomsky/2", "chomsky/3", "chomsky/4", "chomsky/5", "cyk",
+            "lang_words/tm", "lang_file", "lang_file/x",
+            "accepts_rejects", "accepts_rejects/cfg", "accepts_rejects/nfa", "accepts_rejects/re", "accepts_rejects/pda",
+            "accepts_rejects/tm", "chomsky/1", "chomsky/2", "chomsky/3", "chomsky/4", "chomsky/5", "cyk",
             "derivation/leftmost", "derivation/rightmost", "complement/exh", "minimal/exh"]
 
 
@@ -642,8 +710,12 @@ def instance(fam, rng):
         return inst_lang_words(rng, fam.split("/")[1])
     if fam == "lang_file":
         return inst_lang_file(rng)
+    if fam == "lang_file/x":
+        return inst_lang_file_x(rng)
     if fam == "accepts_rejects":
         return inst_accepts_rejects(rng)
+    if fam.startswith("accepts_rejects/"):
+        return inst_accepts_rejects_x(rng, fam.split("/")[1])
     if fam.startswith("chomsky/"):
         return inst_chomsky(rng, int(fam[-1]))
     if fam == "cyk":
